@@ -853,7 +853,8 @@ const TAGS: &[(&str, &str)] = &[
     ("transfers to the staker", "C01"),
     ("LST delivery", "C03"),
     ("oracle", "C15"),
-    ("State query", "C15,C16"),
+    ("State query", "C01,C03,C11,C15"),
+    ("State query reports rate", "C15"),
     ("changed storage", "C08,C10,C07"),
     ("ReceiveRewards accepted from", "C08,C09"),
     ("ReceiveRewards refused (", "C09"),
